@@ -26,6 +26,9 @@ import Kap.Proofs.C13Mono
 import Kap.Proofs.C13LexAtoms
 import Kap.Proofs.C13Prog
 import Kap.Proofs.C13LexStr
+import Kap.Proofs.C13ProgImage
+import Kap.Proofs.C13ProgFuel
+import Kap.Proofs.C13DecodeTree
 import Kap.Gen.C13Tick
 
 namespace Kap.Props.C13
@@ -308,21 +311,176 @@ theorem parse_format_parse (ts : List Tok) (e : Expr) (h : parseTokens ts = .ok 
     parseTokens (fmtToks e) = .ok e :=
   parseTokens_of_eventually _ _ (parse_fmt_parse _ ts e h).1
 
-/-! ## Stated, not proved -/
+/-! ## Statement level: the whole image of `program()`, and the fixed fuel -/
 
-/-- what is still only tied by correspondence at the character level: (a) the per-token hypothesis `AtomLex` for
-numbers, durations and triple-quoted strings (discharged for booleans, identifiers, function names, references
-and single-quoted strings), regex and star operands (lexed differently depending on the preceding token);
-(b) decoding the raw tokens gives the decoded tokens of the tree with its literals normalised. -/
-def lexer_decodes_formatted_stmt : Prop :=
-  ∀ e : Expr, ∀ s, fmtStr e = .ok s → (∀ w, parseLambda s ≠ .na w) →
-    (lex s.toList).bind decodeAll = .ok (fmtToks (canonize e))
+/-- the fixed fuel of `parseProgramToks` (2·tokens + 6) always suffices: more fuel never changes the answer of
+the statement-level parser (whatever the answer is: a program, a syntax error, "not covered") -/
+theorem program_fuel_adequate (ts : List Tok) (k : Nat) :
+    parseStmts (2 * ts.length + 6 + k) ts = parseProgramToks ts :=
+  parseStmts_stable ts k
 
-/-- the other half at statement level: everything `program()` returns formats to tokens that parse back to it
-(`progWF` is sufficient, not necessary: e.g. a parenthesised expression statement right after a typed var).
-Checked on every generated script by the correspondence (model parse = real parse of original AND of the
-formatted text), not proved. -/
-def program_image_roundtrip_stmt : Prop :=
-  ∀ f ts p, parseStmts f ts = .ok p → ∃ N, ∀ g, N ≤ g → parseStmts g (fmtProgram p) = .ok p
+/-- `parse_format_program` WITHOUT a fuel quantifier: `program()` at its fixed fuel reads the formatted tokens of
+every well-formed program back to the identical program -/
+theorem parse_format_program_fixed (p : Program) (h : progWF p = true) :
+    parseProgramToks (fmtProgram p) = .ok p :=
+  parseProgramToks_of_eventually _ _ (parse_format_program p h)
+
+/-- … and formatting is stable at once -/
+theorem format_program_stable_fixed (p q : Program) (h : progWF p = true)
+    (hq : parseProgramToks (fmtProgram p) = .ok q) : fmtProgram q = fmtProgram p := by
+  rw [parse_format_program_fixed p h] at hq
+  cases hq
+  rfl
+
+/-- THE IMAGE of the statement-level parser, for every token list and every fuel: whatever `program()` returns is
+well formed statement by statement – every expression canonical (the invariants of both loops of `precedence`),
+every chain headed by an identifier or a call and non-empty, every `|` link with its parentheses. The analogue of
+`parser_image_canonical` one level up. -/
+theorem program_image_wellformed (f : Nat) (ts : List Tok) (p : Program) (h : parseStmts f ts = .ok p) :
+    progCoreWF p = true :=
+  progSpec f ts p h
+
+/-- `progWF` is exactly that plus the separation of expression statements from their predecessors -/
+theorem progWF_iff (p : Program) : progWF p = true ↔ (progCoreWF p = true ∧ sepOK p = true) :=
+  ⟨progWF_core_sep p, fun h => progWF_of_core p h.1 h.2⟩
+
+/-- `program_image_roundtrip` (was: stated, not proved), with the hypothesis it NEEDS: for every token list the
+statement-level parser accepts, if no expression statement of the result prints with a leading `(` or `-`
+(`sepOK`, decidable, measured on every script as branch `prog-sep-ok`; every chain, lambda, list, identifier,
+literal and `!` statement qualifies), then formatting the program and parsing the tokens – at the fixed fuel –
+gives the identical program, and the tokens are stable. -/
+theorem program_image_roundtrip_partial (f : Nat) (ts : List Tok) (p : Program) (h : parseStmts f ts = .ok p)
+    (hs : sepOK p = true) : parseProgramToks (fmtProgram p) = .ok p :=
+  parse_format_program_fixed p (image_progWF f ts p h hs)
+
+/-- non-vacuity: `var x = (a + b) * c  x|f(1)` is accepted, separated, and round-trips -/
+example : (match parseProgramToks [.sym .var, .id "x", .sym .asgn, .lp, .id "a", .op .TokenPlus, .id "b", .rp,
+      .op .TokenMult, .id "c", .id "x", .sym .pipe, .id "f", .lp, .lit (.num (.int 10 1)), .rp] with
+    | .ok p => sepOK p && p.length == 2
+    | _ => false) = true := by decide
+
+/-- what the re-parse of the formatted program looks like: (statements before, statements after) -/
+def stmtCounts (ts : List Tok) : Option (Nat × Nat) :=
+  match parseProgramToks ts with
+  | .ok p =>
+    match parseProgramToks (fmtProgram p) with
+    | .ok q => some (p.length, q.length)
+    | _ => none
+  | _ => none
+
+/-- The FULL statement (no `sepOK`) is FALSE – of the model and of the real code (found by this proof attempt,
+confirmed on /repo: finding `stray-expr-statement`): Format drops the parentheses around a non-binary operand,
+TICKscript has no statement separator, so `var x = (a)  (b + c)` – two statements – is printed
+`var x = a (b + c)`, ONE statement (the call `a(b + c)`) … -/
+theorem program_image_roundtrip_counterexample_call :
+    stmtCounts [.sym .var, .id "x", .sym .asgn, .lp, .id "a", .rp, .lp, .id "b", .op .TokenPlus, .id "c", .rp]
+      = some (2, 1) := by decide
+
+/-- … and `var x = 1  (-a)` is printed `var x = 1 -a`: the subtraction `1 - a` -/
+theorem program_image_roundtrip_counterexample_minus :
+    stmtCounts [.sym .var, .id "x", .sym .asgn, .lit (.num (.int 10 1)), .lp, .op .TokenMinus, .id "a", .rp]
+      = some (2, 1) := by decide
+
+/-! ## Character level, all atom kinds and both lexer states -/
+
+/-- the lexer STATE matters for two operand texts. `/re/`: in the state "an operand is expected" it is one regex
+token … -/
+theorem regex_lexes_where_operand_expected (d : Char) (L : List Char) (hd : d ≠ '/') (ha : isAscii d = true)
+    (hs : rxScanOK (d :: L) = true) (f : Nat) (rest : List Char) (acc : List RTok) :
+    lexLoop (f + 1) false ('/' :: (d :: L) ++ '/' :: rest) acc =
+      lexLoop f true rest (.regex (String.ofList ('/' :: (d :: L) ++ ['/'])) :: acc) :=
+  lex_regex_false d L hd ha hs f rest acc
+
+/-- … in the state "after an operand" the same text starts with the DIVISION operator … -/
+theorem regex_is_division_after_operand (d : Char) (R : List Char) (hd : d ≠ '/') (f : Nat) (acc : List RTok) :
+    lexLoop (f + 1) true ('/' :: d :: R) acc = lexLoop f false (d :: R) (.op .TokenDiv :: acc) :=
+  lex_regex_true_is_div d R hd f acc
+
+/-- … except directly after `=~` / `!~`, where the operator branch scans the regex itself (this is how
+`"host" =~ /re/` is read although an operand precedes the operator) -/
+theorem regex_after_match_operator (o : BinOp) (ho : isRxOp o = true) (L : List Char) (hs : rxScanOK L = true)
+    (f : Nat) (rest : List Char) (acc : List RTok) :
+    lexLoop (f + 1) true (' ' :: opChars o ++ ' ' :: ('/' :: L ++ '/' :: rest)) acc =
+      lexLoop f true rest (.regex (String.ofList ('/' :: L ++ ['/'])) :: .op o :: acc) :=
+  lex_rxop o ho L hs f rest acc
+
+example : rxScanOK "^a\\/b.*$".toList = true := by decide
+
+/-- `*`: the star operand where an operand is expected (the lexer stays in that state), the multiplication
+operator after an operand -/
+theorem star_lexes_by_state (f : Nat) (R : List Char) (acc : List RTok) :
+    lexLoop (f + 1) false ('*' :: R) acc = lexLoop f false R (.star :: acc) ∧
+    lexLoop (f + 1) true ('*' :: R) acc = lexLoop f false R (.op .TokenMult :: acc) :=
+  ⟨lex_star_false f R acc, lex_star_true f R acc⟩
+
+/-- the per-token hypothesis discharged for EVERY atom kind, by a decidable condition on the atom and the lexer
+state it is read in (`atomLexOK`): booleans; references and single-quoted strings not ending in a backslash;
+triple-quoted strings whose content does not run the scanner's quote counter down (`tripleSafe`); decimal
+integers (a negative one is TWO tokens: unary minus and the number), octal integers ≥ 0, floats `digits.digits`;
+durations printed from their value (≥ 0, a multiple of 1us: every unit w d h m s ms u) or with their literal kept
+(digits and any unit the lexer knows, incl. µ); a regex – in state false only – whose literal starts with an
+ASCII character other than `/` and keeps every `/` escaped. -/
+theorem atom_lexes (b : Bool) (a : Atom) (h : atomLexOK b a = true) : AtomLexIn b a :=
+  atomLexOK_sound b a h
+
+example : atomLexOK true (.num (.int 10 (-42))) = true ∧ atomLexOK true (.num (.int 8 8)) = true ∧
+    atomLexOK true (.num (.flt "100.125")) = true ∧ atomLexOK true (.dur 5400000000000 "") = true ∧
+    atomLexOK true (.dur 9000 "9µ") = true ∧ atomLexOK true (.str "a\\" false) = true ∧
+    atomLexOK true (.str "say 'hi' there" true) = true ∧ atomLexOK false (.rx "a/b" "") = true ∧
+    atomLexOK true (.rx "a/b" "") = false := by decide
+
+/-- `lexer_reads_formatted` for all atom kinds and both states: for every tree that passes the decidable,
+state-threaded check `lexOK` (each operand token checked in the state the lexer is in when it reaches it: the
+left operand inherits the state, `(`, unary operators and ordinary binary operators leave state false, AND / OR
+leave state true, a regex directly after `=~` / `!~` is scanned by the operator branch; a star is accepted as a
+whole call argument or as the whole expression), the lexer – with its fixed fuel – turns the printed TEXT back
+into the raw token sequence of the tree. -/
+theorem lexer_reads_formatted_all (e : Expr) (h : isStar e = true ∨ lexOK e false false = true) :
+    lex (fmtChars e) = .ok (rawToksS e false) := by
+  refine lex_fmtCharsS e ?_
+  rcases h with h | h
+  · exact Or.inl h
+  · exact Or.inr (lexOK_sound e false false h)
+
+/-- non-vacuity: `"host" =~ /^a\/b/ AND f(*, -3, 1.5, 90m) > -(x + 1)` – regex after the match operator,
+keyword operator, star argument, negative number, float, duration, unary over derived parentheses -/
+example : lexOK (.bin .TokenAnd
+      (.bin .TokenRegexEqual (.lit (.ref "host")) (.lit (.rx "^a/b" "^a\\/b")) false)
+      (.bin .TokenGreater
+        (.call "f" [.lit .star, .lit (.num (.int 10 (-3))), .lit (.num (.flt "1.5")), .lit (.dur 5400000000000 "90m")])
+        (.un .neg (.bin .TokenPlus (.id "x") (.lit (.num (.int 10 1))) false)) false) false) false false = true := by
+  decide
+
+/-- a regex directly after AND / OR is NOT read back (the lexer is in the state "after an operand" there: `/` is
+the division operator) – the state-dependent check says so -/
+example : lexOK (.bin .TokenOr (.id "a") (.lit (.rx "x" "x")) false) false false = false := by decide
+
+/-- `lexer_decodes_formatted` (was: stated, not proved; the hypotheses it needs are now explicit and decidable):
+for every tree that passes `lexOK` (above) and `decOK` (every literal VALUE is one its printed token denotes:
+integers within int64, floats in canonical spelling, durations a multiple of 1us within int64 or with a literal
+that denotes the value, regex literal denoting the regex and passing the bracket check that stands in for
+regexp.Compile), lexing the printed text and decoding the raw tokens (`newNumber`, `newDur`, `newString`,
+`newRegex`, `newReference`) gives exactly the decoded tokens of the NORMALISED tree: each literal with the
+spelling that was printed, a negative number as unary minus applied to its absolute value. -/
+theorem lexer_decodes_formatted (e : Expr) (h1 : isStar e = true ∨ lexOK e false false = true)
+    (h2 : decOK e = true) : (lex (fmtChars e)).bind decodeAll = .ok (fmtToks (norm e)) :=
+  lex_decode_fmt e h1 h2
+
+/-- … hence the whole pipeline text → lexer → decoder → parser returns the normalised tree with the Parens flags
+the grammar needs, equal to it up to Parens flags: Format followed by ParseLambda, at CHARACTER level, for every
+tree shape. -/
+theorem format_then_parse_chars (e : Expr) (h1 : isStar e = true ∨ lexOK e false false = true)
+    (h2 : decOK e = true) :
+    ((lex (fmtChars e)).bind decodeAll).bind parseTokens = .ok (canonize (norm e)) ∧
+    erase (canonize (norm e)) = erase (norm e) := by
+  rw [lexer_decodes_formatted e h1 h2]
+  exact parse_format (norm e)
+
+example : decOK (.bin .TokenAnd
+      (.bin .TokenRegexEqual (.lit (.ref "host")) (.lit (.rx "^a/b" "^a\\/b")) false)
+      (.bin .TokenGreater
+        (.call "f" [.lit .star, .lit (.num (.int 10 (-3))), .lit (.num (.flt "1.5")), .lit (.dur 5400000000000 "90m")])
+        (.un .neg (.bin .TokenPlus (.id "x") (.lit (.num (.int 10 1))) false)) false) false) = true := by
+  decide
 
 end Kap.Props.C13
